@@ -408,3 +408,116 @@ def replay_same_basename(w):
         shutil.rmtree(d, ignore_errors=True)
     bad = rc == 0 and len(copies) < 2
     return bad, {"sources": sorted(files), "copied to src/": copies, "src/util.f90 serves": (served or "")[:20]}
+
+
+# ---------------------------------------------------------------------------------------
+# O4: the graph files saved with `graph_dir` are output files of documented entities too: one file per graph, never shared
+# ---------------------------------------------------------------------------------------
+G_OPS = ["+", "-", "*", "//", "==", ".dot."]
+G_FILES = ["a-b.f90", "a_b.f90", "a.b.f90", "a+b.f90"]
+SAVED_GRAPHS = ("usesgraph", "usedbygraph", "inhergraph", "inherbygraph", "callsgraph", "calledbygraph", "afferentgraph", "efferentgraph")
+
+
+def _g_files(op1, op2, f1, f2):
+    return {f1: ["module vec_a", "type t", "integer :: c", "end type t",
+                 f"interface operator({op1})", "module procedure vone", "end interface",
+                 f"interface operator({op2})", "module procedure vtwo", "end interface", "contains",
+                 "function vone(a, b)", "integer, intent(in) :: a, b", "integer :: vone", "end function vone",
+                 "function vtwo(a, b)", "integer, intent(in) :: a, b", "integer :: vtwo", "end function vtwo",
+                 "subroutine run()", "call helper()", "end subroutine run", "subroutine helper()", "end subroutine helper", "end module vec_a"],
+            f2: ["module vec_b", "use vec_a, only: helper", "type t", "integer :: c", "end type t", "contains",
+                 "subroutine run()", "call helper()", "end subroutine run", "end module vec_b"]}
+
+
+def _g_observe(p):
+    """(entity description, graph attribute, name of the file the graph is saved to) for every graph FORD saves per entity"""
+    import ford.graphs as gr
+    from fv.props.c12 import _Rec
+
+    oldd, oldg = gr.Digraph, gr.graphviz_installed
+    gr.Digraph, gr.graphviz_installed = _Rec, False
+    try:
+        gm = gr.GraphManager("/out/graphs", "..", False, False, save_graphs=True)
+        for lst in (p.types, p.procedures, p.submodprocedures, p.modules, p.submodules, p.programs, p.files, p.blockdata):
+            for e in lst:
+                gm.register(e)
+        gm.graph_all()
+    finally:
+        gr.Digraph, gr.graphviz_installed = oldd, oldg
+    out = []
+    for e in gm.graph_objs:
+        for attr in SAVED_GRAPHS:
+            g = getattr(e, attr, None)
+            if g is not None:
+                out.append((f"{type(e).__name__} {e.name}", attr, str(g.imgfile)))
+    return out
+
+
+def _g_bad(obs):
+    bad = []
+    byfile = {}
+    for ent, attr, f in obs:
+        byfile.setdefault(f, []).append((ent, attr))
+        if not f or "/" in f or f in (".", ".."):
+            bad.append(f"{ent}.{attr}: file name {f!r} is not a plain file name")
+    for f, who in byfile.items():
+        if len(who) > 1:
+            bad.append(f"{who} are all saved to {f!r}")
+    return bad
+
+
+def replay_graph_files(w):
+    import ford.sourceform as sf
+    old = sf.namelist
+    sf.namelist = sf.NameSelector()
+    try:
+        p = _parserh.project_concrete(_g_files(*w["slots"]), graph=True, **PSET10)
+        obs = _g_observe(p)
+    finally:
+        sf.namelist = old
+    bad = _g_bad(obs)
+    return bool(bad) or len(obs) < 10, {"files": _g_files(*w["slots"]), "saved graph files": sorted(o[2] for o in obs), "shared or unusable": bad}
+
+
+@obligation("C10", "O4.saved-graph-files", engine="SX(CV)", timeout=900)
+def saved_graph_files(ctx):
+    """two modules in two source files (symbolic file names differing in punctuation) with two operator interfaces (symbolic operators), types
+    and procedures of equal names: every per-entity graph the real GraphManager creates is saved to a file of its own"""
+    import ford.graphs as gr
+    import ford.sourceform as sf
+
+    ctx.encode_fn(gr.FortranGraph.__init__)
+    ctx.encode_fn(gr.GraphManager.graph_all)
+    ctx.encode_fn(gr.GraphManager.output_graphs)
+    ctx.encode_fn(sf.NameSelector.get_name)
+    ctx.bounds.update({"operators": G_OPS, "file names": G_FILES})
+    ctx.stubs.append("graphviz's Digraph replaced by a recorder (no `dot` in the sandbox); the file name is computed in FortranGraph.__init__")
+
+    def h(E):
+        o1 = _CV.choice(E, "op1", G_OPS).concretize()
+        o2 = _CV.choice(E, "op2", G_OPS).concretize()
+        f1 = _CV.choice(E, "f1", G_FILES).concretize()
+        f2 = _CV.choice(E, "f2", G_FILES).concretize()
+        if o1 == o2 or f1 >= f2:
+            E.assume(False)
+            return
+        E.e.snapshot = lambda m: {"slots": [o1, o2, f1, f2]}
+        obs = _parserh.project(_g_files(o1, o2, f1, f2), post=_g_observe, graph=True, **PSET10)
+        E.reachable("graphs created")
+        E.require(len(obs) >= 10, "per-entity graphs are missing")
+        bad = _g_bad(obs)
+        E.require(not bad, "two graphs are saved to the same file: " + "; ".join(bad)[:200])
+
+    E = sym.Engine(ctx, max_paths=2000, incremental=True)
+    found = E.explore(h)
+    seen = set()
+    for (label, m, pc), snap in zip(found, E.snapshots):
+        if not snap or label[:40] in seen:
+            continue
+        seen.add(label[:40])
+        ctx.report(label, snap, replay_graph_files)
+    if E.reached.get("graphs created"):
+        ctx.twins += 1
+    else:
+        ctx.inconclusive.append("vacuity: no graph created")
+    ctx.sample({"paths": E.paths})
